@@ -22,8 +22,8 @@ Definition gk_eqb (a b : gk) : bool :=
 
 Definition armed_of (l : list gk) : gk -> bool := fun k => existsb (gk_eqb k) l.
 
-Definition parks (ar : gk -> bool) (th : thread) : bool :=
-  match gate_of th with Some k => ar k | None => false end.
+Definition parks (ar : gk -> bool) (s : st) (th : thread) : bool :=
+  match gate_of s th with Some k => ar k | None => false end.
 
 (* The close loop ranges over a Go map: its order is the runtime's choice.  [rot] tells the
    model's close thread to move the head of a two-element remaining snapshot to the back before
@@ -46,7 +46,7 @@ Fixpoint run_thread (fuel : nat) (rot : bool) (ar : gk -> bool) (s : st) (t : ti
       match thr s t with
       | None => s
       | Some th =>
-          if parks ar th then s
+          if parks ar s th then s
           else if wants_rotation rot th then
             match step_thread s t false with
             | Some s1 => match step_thread s1 t true with
@@ -93,7 +93,7 @@ Inductive cmd :=
 | COtherRem (c : ch).
 
 Definition at_gate (ar : gk -> bool) (s : st) (t : tid) : bool :=
-  match thr s t with Some th => parks ar th | None => false end.
+  match thr s t with Some th => parks ar s th | None => false end.
 
 Definition thread_ch (th : thread) : ch :=
   match th with
@@ -110,7 +110,7 @@ Definition thread_ch (th : thread) : ch :=
   end.
 Definition parked_at (ar : gk -> bool) (s : st) (g : gk) (c : ch) (t : tid) : bool :=
   match thr s t with
-  | Some th => match gate_of th with
+  | Some th => match gate_of s th with
                | Some g' => gk_eqb g g' && ar g' && (thread_ch th =? c)
                | None => false
                end
@@ -243,8 +243,8 @@ Record chobs := mkChObs {
 }.
 
 (* after every driver command, per channel of the universe (in order):
-   NumSubscribers, broker-subscribed, subLock(ch) free *)
-Record snap := mkSnap { sn_nsubs : N; sn_bsub : bool; sn_free : bool }.
+   NumSubscribers, broker-subscribed, subLock(ch) free, Client.IsSubscribed(ch) *)
+Record snap := mkSnap { sn_nsubs : N; sn_bsub : bool; sn_free : bool; sn_issub : bool }.
 
 Record obs := mkObs {
   ob_chs : list chobs;
@@ -290,7 +290,7 @@ Definition gauges_ok (s : st) (ob : obs) : bool :=
   (fold_left (fun z o => (z + gsub s (co_ch o))%Z) (ob_chs ob) 0%Z =? ob_gsub ob)%Z.
 
 (* the per-command snapshots of the model *)
-Definition snap_of (s : st) (c : ch) : snap := mkSnap (nsubs s c) (bsub s c) (negb (slock s c)).
+Definition snap_of (s : st) (c : ch) : snap := mkSnap (nsubs s c) (bsub s c) (negb (slock s c)) (is_subscribed s c).
 Fixpoint run_snaps (rot : bool) (ar : gk -> bool) (chs : list ch) (se : st * list ch) (cs : list cmd) : option (list (list snap)) :=
   match cs with
   | [] => Some []
@@ -304,7 +304,8 @@ Fixpoint run_snaps (rot : bool) (ar : gk -> bool) (chs : list ch) (se : st * lis
       end
   end.
 Definition snap_eqb (a b : snap) : bool :=
-  (sn_nsubs a =? sn_nsubs b) && Bool.eqb (sn_bsub a) (sn_bsub b) && Bool.eqb (sn_free a) (sn_free b).
+  (sn_nsubs a =? sn_nsubs b) && Bool.eqb (sn_bsub a) (sn_bsub b) && Bool.eqb (sn_free a) (sn_free b) &&
+  Bool.eqb (sn_issub a) (sn_issub b).
 Definition snaps_ok (rot : bool) (c : case) : bool :=
   match run_snaps rot (armed_of (cs_armed c)) (map co_ch (ob_chs (cs_obs c))) (init, []) (cs_cmds c) with
   | Some l => list_eqb (list_eqb snap_eqb) l (ob_snaps (cs_obs c))
